@@ -6,6 +6,7 @@ package harness
 // used by the native fuzzer (FuzzC19).
 
 import (
+	"bytes"
 	"encoding/hex"
 	"errors"
 	"fmt"
@@ -354,6 +355,57 @@ func (c *FCase) bytes() []byte {
 					b[q] = []byte{0, 1, 2, 3, 23, 24, 0x7f, 0x80, 0xfe, 0xff}[m.V%10]
 				}
 			}
+		case "bump2": // two small counts / array heads incremented together (coordinated length fields)
+			var at []int
+			for j := 2; j < len(b); j++ {
+				if b[j] <= 0x16 || (b[j] >= 0x80 && b[j] <= 0x96) {
+					at = append(at, j)
+				}
+			}
+			if len(at) >= 2 {
+				x, y := at[m.P%len(at)], at[(m.P/7+m.N)%len(at)]
+				b[x]++
+				if y != x {
+					b[y]++
+				}
+			}
+		case "cmap": // coordinated edit of a compact-map type entry and of an inlined compact map that uses it
+			i := bytes.Index(b, []byte{0xd8, 0xf9, 0x83, 0x83})
+			if i < 0 {
+				break
+			}
+			p := i + 4
+			l, err := cborItemLen(b, p) // type info
+			if err != nil || p+l >= len(b) {
+				break
+			}
+			p += l
+			variant := m.V % 4
+			if variant != 1 && b[p] < 0x17 {
+				b[p]++ // Count field of the shared map extra data
+			}
+			if variant == 0 {
+				break
+			}
+			var at []int
+			for j := 0; j+14 < len(b); j++ {
+				if b[j] == 0xd8 && b[j+1] == 0xfc && b[j+2] == 0x83 && b[j+3] == 0x18 && b[j+5] == 0x48 {
+					at = append(at, j+14)
+				}
+			}
+			if len(at) == 0 {
+				break
+			}
+			q := at[m.P%len(at)]
+			if q < len(b) && b[q]&0xe0 == 0x80 && b[q]&0x1f < 0x17 {
+				b[q]++ // number of values
+				if variant == 3 {
+					if vl, err := cborItemLen(b, q+1); err == nil && q+1+vl <= len(b) {
+						dup := append([]byte(nil), b[q+1:q+1+vl]...)
+						b = append(append(append([]byte(nil), b[:q+1]...), dup...), b[q+1:]...)
+					}
+				}
+			}
 		case "len": // set a 2-byte big-endian field to an extreme
 			if len(b) >= 2 {
 				q := pos
@@ -396,7 +448,7 @@ var c19Stats struct {
 }
 
 func init() {
-	kinds := []string{"trunc", "flip", "flip", "set", "set", "splice", "ins", "dup", "head", "head", "len", "idx", "idx", "tag"}
+	kinds := []string{"trunc", "flip", "flip", "set", "set", "splice", "ins", "dup", "head", "head", "len", "idx", "idx", "tag", "cmap", "bump2"}
 	register(&PropDef{
 		ID:  "C19",
 		New: func() any { return &FCase{} },
@@ -407,11 +459,11 @@ func init() {
 			for i := 0; i < n; i++ {
 				m := FMut{K: rapid.SampledFrom(kinds).Draw(t, "k"), P: rapid.IntRange(0, 1<<16).Draw(t, "p")}
 				switch m.K {
-				case "flip", "set", "head", "len", "ins", "idx", "tag":
+				case "flip", "set", "head", "len", "ins", "idx", "tag", "cmap":
 					m.V = rapid.IntRange(0, 255).Draw(t, "v")
 				}
 				switch m.K {
-				case "splice", "ins", "dup":
+				case "splice", "ins", "dup", "bump2":
 					m.N = rapid.IntRange(0, 1<<12).Draw(t, "n")
 				}
 				if m.K == "splice" {
